@@ -89,6 +89,8 @@ def construction_facts(facts, fn, pos_var_names):
                     args = [canon(fm.origin(a)) for a in kids(c)]
                     break
             out.setdefault("sorter %s(%s)" % (x["t"].replace(" ", ""), ",".join(args)), x)
+        if k == "IfStmt" and x.get("constexpr"):
+            continue      # a compile-time configuration switch is not a step of the construction
         if k in ("IfStmt", "WhileStmt"):
             cond = x["c"][-3] if (k == "IfStmt" and len(x["c"]) >= 3) else x["c"][0] if k == "IfStmt" else x["c"][-2]
             out.setdefault("cond %s" % canon(fm.cond_origin(cond)), x)
@@ -129,6 +131,15 @@ def run(res, tier):
     scat = [t for t in txts if re.search(r"=\s*(\w+)\[particleIndexes\[", t.split(";")[0]) and not re.match(r"^(\w+)\[particleIndexes\[", t)]
     gnames = set(re.match(r"^(\w+)\[", t).group(1) for t in gathers)
     snames = set(re.search(r"=\s*(\w+)\[particleIndexes\[", t.split(";")[0]).group(1) for t in scat)
+    # copies summarised by the copy-relation engine:  `dest[IDX[p]][v] <- rows[v][p]` (gather) / `->` (scatter); what is gathered is named by its rows
+    rel = [re.match(r"^(\w+)\[IDX\[.*\]\]\[.*\] (<-|->) (\w+)\[", t) for t in txts]
+    rel = [m_ for m_ in rel if m_]
+    if rel:
+        gnames |= set(m_.group(3) for m_ in rel if m_.group(2) == "<-")
+        snames |= set(m_.group(3) for m_ in rel if m_.group(2) == "->")
+        if gathers:
+            gnames = set("rows:" + g_ for g_ in gnames)
+            snames = set("rows:" + g_ for g_ in snames)
     res.instance("C13.2.scatter-inverse", "TbfTree::rebuild", facts.loc(rebuild), "gathered: %s scattered back: %s" % (sorted(gnames), sorted(snames)))
     if len(gnames) < 2:
         res.violation("C13.2.scatter-inverse", tbf.rel(facts.path_of(rebuild)), "TbfTree::rebuild", "gather", rebuild["l"][1], "rebuild does not gather both data and results by original index (found %s)" % sorted(gnames))
@@ -174,8 +185,31 @@ def run(res, tier):
     t = facts.fn("TbfTreeTsm::rebuild")
     tt = facts.ntext(tbf.body(t))
     res.instance("C13.4.tsm", "TbfTreeTsm::rebuild", facts.loc(t), tt)
-    if "treeSource.rebuild()" not in tt or "treeTarget.rebuild()" not in tt:
-        res.violation("C13.4.tsm", tbf.rel(facts.path_of(t)), "TbfTreeTsm::rebuild", "forward", t["l"][1], "target/source rebuild does not rebuild both trees")
+    # both member trees are rebuilt, unconditionally: rebuild() is also what resets every cell expansion to zero, so a tree that is
+    # "skipped because nothing moved" keeps the multipoles / locals of the previous execution and the next one adds to them
+    tb = tbf.body(t)
+    tbf.link_parents(tb)
+    tree_members = [fl["name"] for fl in facts.cls("TbfTreeTsm")["fields"] if "TreeClass" in fl.get("t", "") or fl["name"].startswith("tree")]
+    calls = {}
+    for x in walk(tb):
+        if x.get("k") in ("CallExpr", "CXXMemberCallExpr") and tbf.callee_name(x) == "rebuild" and tbf.call_base(x) is not None:
+            b0 = strip(tbf.call_base(x))
+            if b0.get("k") in ("MemberExpr", "CXXDependentScopeMemberExpr") and b0.get("name") in tree_members:
+                calls.setdefault(b0["name"], []).append(x)
+    if len(tree_members) != 2:
+        raise AnalysisBroken("TbfTreeTsm: %d member trees (2 confirmed by reading)" % len(tree_members))
+    for mname in tree_members:
+        cs = calls.get(mname, [])
+        if not cs:
+            res.violation("C13.4.tsm", tbf.rel(facts.path_of(t)), "TbfTreeTsm::rebuild", "forward:" + mname, t["l"][1], "target/source rebuild does not rebuild '%s'" % mname)
+            continue
+        cond = [a for c_ in cs for a in tbf.ancestors(c_) if a.get("k") in ("IfStmt", "ConditionalOperator", "SwitchStmt", "ForStmt", "WhileStmt")]
+        early = [r for r in walk(tb, into_lambdas=False) if r.get("k") == "ReturnStmt" and r["l"][1] < cs[0]["l"][1]]
+        if cond or early:
+            w = (cond or early)[0]
+            res.violation("C13.4.tsm", tbf.rel(facts.path_of(t)), "TbfTreeTsm::rebuild", "conditional:" + mname, w["l"][1],
+                          "'%s' is rebuilt only under a condition (`%s`): rebuild() is what resets the cell expansions, a tree that is skipped keeps the multipoles / locals of the previous "
+                          "execution and the next execute() adds one more full interaction on top of them" % (mname, facts.ntext(w["c"][0] if w.get("k") == "IfStmt" else w)[:70]))
     # 1
     for comp in (("g++",) if tier == "quick" else ("g++", "clang++")):
         rc, err = tbf.compile_witness(REBUILD_TU, compiler=comp, name="c13_rebuild.cpp", max_errors=5)
